@@ -114,4 +114,135 @@ pub fn run(cfg: &Cfg, rep: &mut Report) {
       rep.sample_some(7019, || json!({"case": id, "chain": pipe.chain.show(), "acts": pipe.acts.len(), "late_schedule": late, "notifications_compared": events / 2}));
     }
   }
+
+  // the two subjects themselves: one history (incl. subscriptions made from inside a
+  // subscriber's callback, retain() and len()) on Subject and on SubjectThreads, single-threaded:
+  // the global order of deliveries and every size reading must be identical
+  let n = cfg.n(150_000, 6_000_000);
+  let mut rng = Rng::new(cfg.seed ^ 0xC18B);
+  for i in 0..n {
+    let mut r = rng.fork();
+    if !cfg.mine(i) {
+      continue;
+    }
+    let id = format!("subj:{}", i);
+    if !cfg.wants(&id) {
+      continue;
+    }
+    let len = 3 + r.below(cfg.n(8, 14));
+    let h: Vec<SHop> = (0..len)
+      .map(|_| match r.below(12) {
+        0 | 1 => SHop::Sub(r.below(3)),
+        2 => SHop::Unsub(r.below(3)),
+        3 | 4 => SHop::ArmNested(r.below(3)),
+        5 => SHop::Retain,
+        6 => SHop::Complete,
+        7 if r.chance(1, 2) => SHop::Error,
+        _ => SHop::Next,
+      })
+      .collect();
+    rep.evaluations += 1;
+    rep.count("subject_histories_compared", 1);
+    let a = subject_trace(false, &h);
+    let b = subject_trace(true, &h);
+    match (&a, &b) {
+      (Ok(ta), Ok(tb)) => {
+        rep.events += (ta.len() + tb.len()) as u64;
+        if ta.iter().any(|l| l.starts_with("5")) {
+          rep.nontrivial.insert(hash64(&("subj", &h)));
+        }
+        if ta != tb {
+          let at = ta.iter().zip(tb.iter()).position(|(x, y)| x != y).unwrap_or(ta.len().min(tb.len()));
+          rep.violation("variants_differ", "Subject vs SubjectThreads", &id, json!({"history": format!("{:?}", h), "first_difference_at": at, "local": ta, "threads": tb}));
+        }
+      }
+      // a history on which the local subject panics (re-entrant borrow) has no reference behaviour
+      (Err(_), _) => {
+        rep.count("subject_histories_skipped_local_panics", 1);
+      }
+      (Ok(_), Err(p)) => rep.violation("panic", "SubjectThreads only", &id, json!({"history": format!("{:?}", h), "panic": p})),
+    }
+  }
+}
+
+#[derive(Clone, Copy, Debug, PartialEq, Eq, Hash)]
+pub enum SHop {
+  Sub(usize),
+  Unsub(usize),
+  /// the next item subscriber k receives makes it subscribe one more probe to the subject
+  ArmNested(usize),
+  Next,
+  Complete,
+  Error,
+  Retain,
+}
+
+macro_rules! subject_history {
+  ($subj:ty, $h:expr) => {{
+    use rxrust::prelude::*;
+    use rxrust::subject::SubjectSize;
+    use std::cell::Cell;
+    use std::rc::Rc;
+    let log = crate::log::Log::new();
+    let mut subj = <$subj>::default();
+    let mut subs: Vec<Option<_>> = vec![None, None, None];
+    let nested = Rc::new(Cell::new(50u32));
+    let mut item = 100i64;
+    let mut trace: Vec<String> = vec![];
+    let mut seen = 0usize;
+    for hop in $h {
+      match hop {
+        SHop::Sub(k) => {
+          if subs[*k].is_none() {
+            subs[*k] = Some(subj.clone().actual_subscribe(crate::log::Probe::new(1 + *k as u32, &log)));
+          }
+        }
+        SHop::Unsub(k) => {
+          if let Some(u) = subs[*k].take() {
+            u.unsubscribe();
+          }
+        }
+        SHop::ArmNested(k) => {
+          let (s2, l2, nn) = (subj.clone(), log.clone(), nested.clone());
+          let armed = Rc::new(Cell::new(true));
+          crate::log::set_local_cb(
+            1 + *k as u32,
+            Rc::new(move |n: &N| {
+              if armed.get() && matches!(n, N::Next(_)) {
+                armed.set(false);
+                let id = nn.get();
+                nn.set(id + 1);
+                std::mem::forget(s2.clone().actual_subscribe(crate::log::Probe::new(id, &l2)));
+              }
+            }),
+          );
+        }
+        SHop::Next => {
+          item += 1;
+          subj.next(V::I(item));
+        }
+        SHop::Complete => subj.clone().complete(),
+        SHop::Error => subj.clone().error(7),
+        SHop::Retain => subj.retain(),
+      }
+      // everything delivered during this step, in global order, then the size readings
+      let evs = log.evs();
+      for e in &evs[seen..] {
+        if let crate::log::K::N(n) = &e.k {
+          trace.push(format!("{}:{:?}", e.id, n));
+        }
+      }
+      seen = evs.len();
+      trace.push(format!("len={} empty={}", subj.len(), subj.is_empty()));
+    }
+    crate::log::clear_local_cbs();
+    std::mem::forget(subs);
+    trace
+  }};
+}
+
+pub fn subject_trace(threads: bool, h: &[SHop]) -> Result<Vec<String>, String> {
+  let r = crate::log::catch(|| if threads { subject_history!(rxrust::subject::SubjectThreads<V, E>, h) } else { subject_history!(rxrust::subject::Subject<'static, V, E>, h) });
+  crate::log::clear_local_cbs();
+  r
 }
